@@ -7,6 +7,7 @@ import (
 	"fmt"
 	"os"
 	"strings"
+	"sync"
 	"testing"
 
 	"github.com/robertkrimen/otto"
@@ -183,7 +184,23 @@ func genSource(t *rapid.T) sourceCase {
 			return piece{T: sourceMapTail(rapid.SampledFrom(sourceMaps).Draw(t, "sm"))}
 		}
 	}
-	switch mode := rapid.IntRange(0, 10).Draw(t, "mode"); {
+	switch mode := rapid.IntRange(0, 11).Draw(t, "mode"); {
+	case mode == 11:
+		// two operations of the reference-race family in one scope, random deletions
+		c.Mode = "reference-race"
+		c.Sep = ""
+		sc := rapid.SampledFrom(raceScopes).Draw(t, "scope")
+		var body []string
+		for i := rapid.IntRange(1, 3).Draw(t, "nops"); i > 0; i-- {
+			op := rapid.SampledFrom(raceOps).Draw(t, "op")
+			d := rapid.SampledFrom(raceDeletes).Draw(t, "del")
+			op = strings.ReplaceAll(strings.ReplaceAll(op, "%DX", d.x), "%DG", d.g)
+			if i > 1 || !strings.HasPrefix(sc.src, "(function") {
+				op = strings.ReplaceAll(op, "return ", "__r = ")
+			}
+			body = append(body, op)
+		}
+		c.Pieces = []piece{{T: strings.ReplaceAll(sc.src, "%B", strings.Join(body, "; "))}}
 	case mode == 10:
 		c.Mode = "regexp-prefixes"
 		c.Sep = ""
@@ -519,8 +536,124 @@ func runRegexpPrefixes(pattern string, limit int) (l entryLog) {
 	return l
 }
 
+// ---- reference races: a binding that disappears between the evaluation of a reference and its use --------
+
+// scopes: %B is the body; x (and the function g) are declared in a way that makes them deletable or not.
+var raceScopes = []struct{ name, src string }{
+	{"function-eval-var", `(function(){ eval("var x = 1; function g(){ return 1 }"); %B })()`},
+	{"function-eval-var-closure", `(function(){ eval("var x = 1; function g(){ return 1 }"); return (function(){ %B })() })()`},
+	{"global-eval-var", `eval("var x = 1; function g(){ return 1 }"); %B`},
+	{"global-implicit", `x = 1; g = function(){ return 1 }; %B`},
+	{"global-var", `var x = 1; function g(){ return 1 } %B`},
+	{"function-var", `(function(){ var x = 1; function g(){ return 1 } %B })()`},
+	{"function-param", `(function(x, g){ %B })(1, function(){ return 1 })`},
+	{"with-object", `var o = {x: 1, g: function(){ return 1 }}; with (o) { %B }`},
+	{"with-object-in-function", `(function(){ var o = {x: 1, g: function(){ return 1 }}; with (o) { %B } })()`},
+	{"catch-param", `try { throw 1 } catch (x) { var g = function(){ return 1 }; %B }`},
+	{"nested-eval", `(function(){ eval("eval('var x = 1'); function g(){ return 1 }"); %B })()`},
+	{"function-eval-var-with-try", `(function(){ eval("var x = 1; function g(){ return 1 }"); try { %B } finally { typeof x } })()`},
+	{"function-eval-var-caught", `(function(){ eval("var x = 1; function g(){ return 1 }"); try { %B } catch (e) { return String(e) } })()`},
+}
+
+// deletions: %D in an operation; each removes (or tries to remove) the binding x / g / the property.
+var raceDeletes = []struct{ name, x, g string }{
+	{"delete", `delete x`, `delete g`},
+	{"eval-delete", `eval("delete x")`, `eval("delete g")`},
+	{"closure-delete", `(function(){ return delete x })()`, `(function(){ return delete g })()`},
+	{"closure-eval-delete", `(function(){ return eval("delete x") })()`, `(function(){ return eval("delete g") })()`},
+	{"with-object-delete", `(typeof o === "object" ? delete o.x : delete x)`, `(typeof o === "object" ? delete o.g : delete g)`},
+	{"this-delete", `delete this.x`, `delete this.g`},
+	{"redeclare-after-delete", `(delete x, eval("var x = 9"), delete x)`, `(delete g, eval("function g(){}"), delete g)`},
+}
+
+// operations: every reference-consuming form, with the deletion %DX (of x) / %DG (of g) between resolve and use.
+var raceOps = []string{
+	`x = (%DX, 2); return typeof x`, `x += (%DX, 2); return typeof x`, `x -= {valueOf: function(){ %DX; return 1 }}; return typeof x`, `x = x + (%DX, x)`, `x = (%DX, x)`,
+	`var v = {valueOf: function(){ %DX; return 1 }}; x = v; x++; return typeof x`, `x = {valueOf: function(){ %DX; return 1 }}; x++; return typeof x`, `x = {valueOf: function(){ %DX; return 1 }}; --x; return typeof x`,
+	`x = {valueOf: function(){ %DX; return 1 }}; x *= 2; return typeof x`, `x <<= (%DX, 1); x >>>= 1; x |= (%DX, 1); return x`, `x = (%DX, %DX, 3); return x`,
+	`var x = (%DX, 3); return x`, `for (x in (%DX, {a: 1})) ; return typeof x`, `for (x in {a: 1, b: 2}) { %DX } return typeof x`, `for (var x in {a: 1}) { %DX } return typeof x`,
+	`for (x = 0; x < 2; x++) { %DX } return typeof x`, `%DX; return typeof x`, `%DX; return x`, `%DX; x++; return x`, `%DX; x += 1; return x`, `%DX; return delete x`, `return [x, %DX, typeof x]`,
+	`return g(%DG)`, `return new g(%DG)`, `return g.call(null, %DG) + g()`, `g = (%DG, 2); return typeof g`, `return (%DG, g)()`, `return typeof g(%DG) + typeof g`, `return [g, %DG][0]()`,
+	`g((%DG, %DX)); return typeof x + typeof g`, `x = g(%DX); return x`, `x = function(){ return %DX }(); return x`, `x = eval("%DX; 5"); return typeof x`, `eval("x = (%DX, 4)"); return typeof x`,
+	`(function(){ x = (%DX, 6) })(); return typeof x`, `(function(){ x += (%DX, 6) })(); return typeof x`, `return (function(){ return typeof x + (%DX) + typeof x })()`,
+	`x.y = (%DX, 1)`, `x[%DX] = 1; return typeof x`, `return x[(%DX, "toString")]()`, `return x.toString(%DX)`, `with ({}) { x = (%DX, 7) } return typeof x`, `switch (x) { case (%DX, 1): x = 2 } return typeof x`,
+	`try { x = (%DX, thrower()) } finally { x = 8 }`, `x = (%DX, 2), x = (%DX, 3); return typeof x`, `return typeof x + (%DX) + (x = 1) + (%DX) + typeof x`, `return x === (%DX, x)`,
+	`arguments; x = (%DX, arguments.length)`, `return delete x && delete x && (x = 1, delete x)`, `if (%DX) { x = 1 } else { x = 2 } return delete x`,
+}
+
+func raceScripts() [][]string {
+	var all [][]string
+	for _, sc := range raceScopes {
+		for _, op := range raceOps {
+			var out []string
+			for _, d := range raceDeletes {
+				body := strings.ReplaceAll(strings.ReplaceAll(op, "%DX", d.x), "%DG", d.g)
+				if strings.HasPrefix(sc.src, "(function") {
+					out = append(out, strings.ReplaceAll(sc.src, "%B", body))
+				} else {
+					// global code cannot "return": wrap the body's value
+					out = append(out, strings.ReplaceAll(sc.src, "%B", strings.ReplaceAll(body, "return ", "__r = ")))
+				}
+			}
+			all = append(all, out)
+		}
+	}
+	return all
+}
+
+// runScriptOnly: a (syntactically valid) script through the evaluating entry points only.
+func runScriptOnly(src string, limit int) (l entryLog) {
+	var vm *otto.Otto
+	fresh := func() {
+		vm = newVM(limit, 30000)
+		_ = vm.Set("log", func(call otto.FunctionCall) otto.Value { return otto.UndefinedValue() })
+	}
+	wrapped := "(function(){ " + src + " })"
+	for _, e := range []struct {
+		name string
+		fn   func()
+	}{
+		{"Otto.Run(string)", func() { _, _ = vm.Run(src) }},
+		{"Otto.Eval", func() { _, _ = vm.Eval(src) }},
+		{"Otto.Compile+Run", func() {
+			if s, err := vm.Compile("", src); err == nil {
+				_, _ = vm.Run(s)
+			}
+		}},
+		{"Otto.Call(function wrapper, nil)", func() { _, _ = vm.Call(wrapped, nil) }},
+		{"Value.Call(function wrapper) at rest", func() {
+			if f, err := vm.Run(wrapped); err == nil {
+				_, _ = f.Call(otto.UndefinedValue())
+			}
+		}},
+		{"Otto.Run(eval(text))", func() { _ = vm.Set("__t", src); _, _ = vm.Run(`eval(__t)`) }},
+		{"Otto.Run(Function(text)())", func() { _ = vm.Set("__t", src); _, _ = vm.Run(`Function(__t)()`) }},
+	} {
+		if vm == nil || len(l.panics) > 0 {
+			fresh()
+		}
+		harness.Arm(vm, 30000)
+		if l.call(e.name+" of "+src, e.fn) {
+			l.classes = append(l.classes, "budget-sentinel")
+		}
+	}
+	l.classes = append(l.classes, "script-only")
+	return l
+}
+
 func runSource(c sourceCase) (res jobResult) {
 	src := string(c.bytes())
+	if c.Mode == "reference-race" {
+		// every piece is a script of its own
+		for _, p := range c.Pieces {
+			l := runScriptOnly(p.T, c.Limit)
+			res.Panics = append(res.Panics, l.panics...)
+			res.Classes = append(res.Classes, l.classes...)
+		}
+		res.Classes = append(res.Classes, "mode:"+c.Mode)
+		res.Nontrivial = true
+		return res
+	}
 	if c.Mode == "regexp-prefixes" {
 		if len(src) > 200 {
 			src = src[:200]
@@ -592,7 +725,7 @@ func truncate(s string, n int) string {
 
 var sourceFacet = harness.Register(&harness.Facet[sourceCase]{
 	Name:     "source-bytes",
-	Rule:     "rapid: source text built from pieces — a token soup (every ES5 keyword and future reserved word, every punctuator, identifiers incl. unicode escapes, numeric/string/regexp literals in valid, partial and hostile forms, comments, line terminators, BOM, hostile one-line snippets), raw invalid UTF-8 / NUL bytes, pieces repeated up to 20000 times (very long identifiers and numbers), nesting openers repeated 3…5000 times with or without matching closers, inline base64 source maps, and regular-expression bodies (seed patterns and atom soups) cut at EVERY position and used both as /literal/ and as the string handed to RegExp, new RegExp, compile, match, search, split, replace and parser.TransformRegExp, and valid programs from the semantic generator that are truncated, cut, spliced with another program, have ranges duplicated and tokens or raw bytes inserted. Each text goes, inside a worker subprocess on a runtime with stack depth limit ∈ {2,5,16,64,500} and a poll budget, through parser.ParseFile (two modes), parser.ParseFunction (as parameters and as body), the public scanner, (texts ≤ 300 bytes: ParseFile and ParseFunction on EVERY prefix, i.e. end of input after and inside every token), Otto.Compile, Run(*Script), Run(string), Run(*ast.Program), Run(io.Reader), Eval, Otto.Call (three forms), Otto.Object, Otto.Get/Set with the text as name, and as a string value through eval/Function/RegExp/JSON.parse/URI/Date.parse/etc. Oracle: every call returns; no Go panic crosses the API (the poll-budget sentinel excepted); the worker survives and answers. Non-trivial = the text is accepted or otto's scanner delivers ≥ 3 tokens before the first syntax error; distinct by the piece list",
+	Rule:     "rapid: source text built from pieces — a token soup (every ES5 keyword and future reserved word, every punctuator, identifiers incl. unicode escapes, numeric/string/regexp literals in valid, partial and hostile forms, comments, line terminators, BOM, hostile one-line snippets), raw invalid UTF-8 / NUL bytes, pieces repeated up to 20000 times (very long identifiers and numbers), nesting openers repeated 3…5000 times with or without matching closers, inline base64 source maps, and regular-expression bodies (seed patterns and atom soups) cut at EVERY position and used both as /literal/ and as the string handed to RegExp, new RegExp, compile, match, search, split, replace and parser.TransformRegExp, scripts of the reference-race family (13 ways of declaring x and g — eval-declared in function/global/nested-eval code, implicit globals, var, parameters, with-objects, catch parameters — × 50 reference-consuming operations: plain/compound assignment, ++/--, for-in targets, var initialisers, typeof, calls, new, member writes, closures, eval, switch, try/finally — × 7 ways of deleting the binding between the evaluation of the reference and its use; enumerated completely and recombined by rapid; run through Run, Eval, Compile+Run, Otto.Call, Value.Call at rest, eval(text) and Function(text)()), and valid programs from the semantic generator that are truncated, cut, spliced with another program, have ranges duplicated and tokens or raw bytes inserted. Each text goes, inside a worker subprocess on a runtime with stack depth limit ∈ {2,5,16,64,500} and a poll budget, through parser.ParseFile (two modes), parser.ParseFunction (as parameters and as body), the public scanner, (texts ≤ 300 bytes: ParseFile and ParseFunction on EVERY prefix, i.e. end of input after and inside every token), Otto.Compile, Run(*Script), Run(string), Run(*ast.Program), Run(io.Reader), Eval, Otto.Call (three forms), Otto.Object, Otto.Get/Set with the text as name, and as a string value through eval/Function/RegExp/JSON.parse/URI/Date.parse/etc. Oracle: every call returns; no Go panic crosses the API (the poll-budget sentinel excepted); the worker survives and answers. Non-trivial = the text is accepted or otto's scanner delivers ≥ 3 tokens before the first syntax error; distinct by the piece list",
 	Quick:    300,
 	Thorough: 2500,
 	Gen:      genSource,
@@ -617,5 +750,42 @@ func TestHostileSnippets(t *testing.T) {
 	for _, re := range regexpSeeds {
 		cases = append(cases, sourceCase{Pieces: []piece{{T: re}}, Limit: 64, Mode: "regexp-prefixes"})
 	}
+	for _, group := range raceScripts() {
+		c := sourceCase{Limit: 64, Mode: "reference-race", Sep: "\n"}
+		for _, sc := range group {
+			c.Pieces = append(c.Pieces, piece{T: sc})
+		}
+		cases = append(cases, c)
+	}
+	// several workers (the cache only saves time: Check stays a function of the case)
+	outs := make([]harness.Outcome, len(cases))
+	var wg sync.WaitGroup
+	next := make(chan int, len(cases))
+	for i := range cases {
+		next <- i
+	}
+	close(next)
+	for w := 0; w < 4; w++ {
+		wg.Add(1)
+		go func() {
+			defer wg.Done()
+			for i := range next {
+				outs[i] = checkSource(cases[i])
+			}
+		}()
+	}
+	wg.Wait()
+	idx := map[string]int{}
+	for i, c := range cases {
+		idx[fmt.Sprint(c)] = i
+	}
+	orig := sourceFacet.Check
+	sourceFacet.Check = func(c sourceCase) harness.Outcome {
+		if i, ok := idx[fmt.Sprint(c)]; ok {
+			return outs[i]
+		}
+		return orig(c)
+	}
+	defer func() { sourceFacet.Check = orig }()
 	sourceFacet.Each(t, cases)
 }
